@@ -235,4 +235,14 @@ PROPS = {
         'rule': "one evaluation = one registration/render; a cell = (number of parameters, rest/closed, body/inline, call site, bound or rejection reason) plus cells of the escaping, priority and recursion families",
         'must_observe': ['context_dumps_compared', 'rejections_agree', 'api_template_pairs', 'escape_checks', 'priority_checks', 'recursion_checks'],
     },
+    'C01': {
+        'level': 'exploration',
+        'technique': 'two observation modes over generated routing programs: default escaper with disjoint data/text alphabets (no raw special may reach the output), and a marking escape function installed through the public set_escape_fn whose private-use brackets give the exact number of escapings of every data character, with an event count of escaper calls',
+        'claim': 'A route generator sends a source (context string, map field, array item, nested field, literal; incl. strings made only of specials) through 1-6 routing steps drawn from 19 kinds (set, loops in captures, set-blocks, filter sections, includes, component arguments/rest/bodies, ~, ternary, or, index, slice, default, first, join, upper, replace, map-literal field, function result) '
+                 'to a print site hitting both sinks (expression write and fused variable-path write), inside and outside captures, directly printed array/map containers, `| safe`, optionally through blocks and super(). Mode B asserts depth >= 1 everywhere when autoescape is on and `safe` unused, exactly 1 in pass-through routes (no double escaping), '
+                 'exactly 0 for `| safe`, and depth 0 with zero logged escaper calls when the template is not autoescaped (suffix not matching, custom suffix lists set before or after adding, render_str flag). Every eighth case renders a general generated program (markup-free text, no safe, hostile data) with the default escaper.',
+        'note': 'the escape function also validates that its input is valid UTF-8 (it is produced with from_utf8_unchecked); mixed on/off modes inside one render are not generated',
+        'rule': "one evaluation = one render; a cell = (ordered routing step kinds, sink, autoescape on/off, configuration)",
+        'must_observe': ['mode_a_outputs_checked', 'escape_calls_logged', 'data_characters_classified', 'pass_through_programs', 'safe_programs', 'not_autoescaped_programs', 'per_call_flag_checks'],
+    },
 }
